@@ -293,3 +293,22 @@ register(Job("C12", "unit_policy_passthrough", make_policy(), tier="quick", budg
 register(Job("C12", "rec_retry_inside", engine_harness(C.rec_retry_inside, _c12_engine), tier="quick", budget_s=400,
              parts=auto_parts(C.rec_retry_inside()), goals=("reiterated",),
              doc=doc("rec_retry_inside: a retrying node inside a recurrent subgraph (attempts per iteration)", SYMS)))
+
+
+def _c12_same_args(obs: Obs, ref: RefResult, sym: Any) -> Any:
+    """Attempts of one execution of R are made with the arguments of its first attempt (R is executed once in this template,
+    so all its invocations are attempts of that execution).  Which iteration's value the first attempt sees is the recorded
+    outside-reader finding and is not judged here."""
+    out = [x for x in (V.hang(obs), V.blocking(obs)) if x]
+    invs = [i for i in obs.rc.invs if i.node == "R"]
+    for a, b in zip(invs, invs[1:]):
+        if sorted(a.kwargs) != sorted(b.kwargs) or any(not V.same(a.kwargs[k], b.kwargs[k]) for k in a.kwargs):
+            out.append("attempt_%d_args_differ_from_attempt_%d:R" % (b.k, a.k))
+            break
+    return out
+
+
+register(Job("C12", "retry_outside_reader", engine_harness(C.retry_outside_reader, _c12_same_args), tier="quick", budget_s=400,
+             parts=auto_parts(C.retry_outside_reader()), goals=("reiterated",),
+             doc=doc("retry_outside_reader: a retrying node reading the start node of a recurrent subgraph from outside; the "
+                     "subgraph re-iterates between its attempts", SYMS)))
